@@ -134,12 +134,20 @@ def probe_usage(layer, meth, variant=""):
         if fn not in layer.world.calls:
             continue
         for i in range(n):
-            vals = [S.BASE[fn] + j for j in range(n)]
-            if st is not None:
-                vals[st] = layer.const("SSTOP")
-            vals[i] = layer.const("SRUN") if i == st else vals[i] + 50
-            k2, r2 = layer.run(meth, records={fn: vals}, **kw)
-            if k2 != "val" or json.dumps(canon_value(r2), sort_keys=True) != base:
+            # alternative values of slot i: another number, "no tty" (-1, Solaris PRNODEV), another status code
+            alts = [layer.const("SRUN")] if i == st else \
+                [S.BASE[fn] + i + 50, S.NOTTY] + ([layer.const("PRNODEV")] if plat == "sunos" else [])
+            changed = False
+            for alt in alts:
+                vals = [S.BASE[fn] + j for j in range(n)]
+                if st is not None:
+                    vals[st] = layer.const("SSTOP")
+                vals[i] = alt
+                k2, r2 = layer.run(meth, records={fn: vals}, **kw)
+                if k2 != "val" or json.dumps(canon_value(r2), sort_keys=True) != base:
+                    changed = True
+                    break
+            if changed:
                 deps.append([fn, i])
     return {"plat": plat, "meth": meth, "variant": variant, "shape": cv["shape"], "type": cv["type"],
             "fields": fields, "deps": deps}
